@@ -522,17 +522,17 @@ func (d *Document) removeTOCEntries(startIndex int) {
 	// 保留start之前的元素
 	newElements = append(newElements, d.Body.Elements[:startIndex]...)
 
-	// 跳过TOC相关的元素
+	// 跳过TOC条目：只有使用TOC样式的段落才是目录条目。第一个不是目录条目的元素（没有样式的段落、
+	// 其他样式的段落、表格等）标志着目录结束，它和后面的所有元素都保留
 	for i := startIndex; i < len(d.Body.Elements); i++ {
-		element := d.Body.Elements[i]
-		if paragraph, ok := element.(*Paragraph); ok {
-			if paragraph.Properties != nil && paragraph.Properties.ParagraphStyle != nil {
-				if !strings.HasPrefix(paragraph.Properties.ParagraphStyle.Val, "TOC") {
-					// 不是TOC样式，保留后续所有元素
-					newElements = append(newElements, d.Body.Elements[i:]...)
-					break
-				}
-			}
+		isEntry := false
+		if paragraph, ok := d.Body.Elements[i].(*Paragraph); ok && paragraph != nil {
+			isEntry = paragraph.Properties != nil && paragraph.Properties.ParagraphStyle != nil &&
+				strings.HasPrefix(paragraph.Properties.ParagraphStyle.Val, "TOC")
+		}
+		if !isEntry {
+			newElements = append(newElements, d.Body.Elements[i:]...)
+			break
 		}
 	}
 
